@@ -6,4 +6,5 @@ import EnvVerif.Props.C01
 import EnvVerif.Props.C02
 import EnvVerif.Props.C04
 import EnvVerif.Props.C05
+import EnvVerif.Props.C06
 import EnvVerif.Props.C07
